@@ -5,6 +5,7 @@
 //!
 //!   setup <ndocs> <flushed 0|1> <pending-update 0|1>
 //!   op <api>             spawn the future of an API call (not polled yet)          → slot index
+//!   fault_del <suffix>   the next DELETE of a path ending in <suffix> fails
 //!   call <api>           op + run
 //!   poll <slot>          poll it once            run <slot>   poll it to completion
 //!   drop <slot>          drop the future (cancellation)
@@ -620,6 +621,7 @@ impl World {
     async fn reopen(&mut self) -> Result<(), String> {
         // an injected fault that the case did not consume must not hit the recovery itself
         *self.store.trace.fail_put_suffix.lock().unwrap() = None;
+        *self.store.trace.fail_del_suffix.lock().unwrap() = None;
         for i in 0..self.slots.len() {
             self.drop_slot(i).await?;
         }
@@ -790,6 +792,7 @@ async fn run_case(ops: &[String]) -> Result<CaseOut, String> {
             ["setro", b] => w.setro(*b == "1").await,
             ["dbro", b] => w.dbro(*b == "1").await,
             ["fault", s] => *w.store.trace.fail_put_suffix.lock().unwrap() = Some(s.to_string()),
+            ["fault_del", s] => *w.store.trace.fail_del_suffix.lock().unwrap() = Some(s.to_string()),
             ["sweep"] => w.sweep().await?,
             ["reopen"] => w.reopen().await?,
             _ => return Err(format!("bad op: {op}")),
@@ -851,6 +854,7 @@ fn check_case(rt: &tokio::runtime::Runtime, name: &str, ops: &[String], model: &
     }
     if let Some(m) = model.as_mut() {
         let mut ctx: Vec<String> = vec![];
+        let mut kinds: BTreeMap<String, String> = BTreeMap::new();
         for (req, ans) in &out.lines {
             ctx.push(req.clone());
             let got = m.ask(req);
@@ -858,9 +862,30 @@ fn check_case(rt: &tokio::runtime::Runtime, name: &str, ops: &[String], model: &
                 rep.model_compared += 1;
             }
             if record {
-                let kind = req.split(' ').next().unwrap_or("");
-                let what = if kind == "spawn" { req.as_str() } else { kind };
-                rep.hit(&format!("model-answer:{what}:{}", got.split(' ').next().unwrap_or("")));
+                // which branch of the model answered: thread kind × outcome (× where a pending poll was parked)
+                let mut it = req.split(' ');
+                let verb = it.next().unwrap_or("");
+                let status = got.split(' ').next().unwrap_or("").to_string();
+                match verb {
+                    "spawn" => {
+                        kinds.insert(got.trim_start_matches('t').to_string(), it.next().unwrap_or("?").to_string());
+                    }
+                    "poll" | "drop" => {
+                        let tid = it.next().unwrap_or("");
+                        let kind = kinds.get(tid).cloned().unwrap_or_else(|| "sync".into());
+                        let lc = got.split(' ').find_map(|x| x.strip_prefix("lc=")).unwrap_or("?");
+                        let key = if verb == "drop" {
+                            format!("model:{kind}:dropped:lc-after={lc}")
+                        } else if status == "pending" {
+                            format!("model:{kind}:pending:{}", it.next().unwrap_or("?"))
+                        } else {
+                            format!("model:{kind}:{status}")
+                        };
+                        rep.hit(&key);
+                    }
+                    "setro" | "dbro" => rep.hit(&format!("model:{verb}{}:{status}", it.next().unwrap_or(""))),
+                    _ => {}
+                }
             }
             let same = if let Some(rest) = ans.strip_prefix("* ") { got.split_once(' ').map(|x| x.1) == Some(rest) } else { &got == ans };
             if ans != "skip" && !same {
@@ -1052,7 +1077,9 @@ fn main() {
         for setup in setups {
             for tr in ["setro 1", "dbro 1", "op close|run 0", "op close_collection|run 0", "op delete_collection|run 0",
                 "op add|poll 0|poll 0|drop 0", "fault ids.cbor|op flush|run 0", "fault meta.cbor|op close|run 0", "fault ids.cbor|op close_collection|run 0",
-                "op close|poll 0|drop 0|op close|run 1", "op delete_collection|poll 0|poll 0|poll 0|drop 0"] {
+                "op close|poll 0|drop 0|op close|run 1", "op delete_collection|poll 0|poll 0|poll 0|drop 0",
+                "fault_del ids.cbor|op delete_collection|run 0", "fault_del ids.cbor|op delete_collection|run 0|op delete_collection|run 1",
+                "op db_close|run 0", "op db_flush|run 0", "dbro 1|op db_close|run 0", "op close_collection|run 0|op db_close|run 1"] {
                 let mut ops = vec![setup.to_string()];
                 ops.extend(tr.split('|').map(|s| s.to_string()));
                 ops.push("sweep".into());
@@ -1134,6 +1161,31 @@ fn main() {
         }
         if rep.samples.len() < 4 && (name.starts_with("gen") || name.starts_with("cancel:update")) {
             rep.sample(json!({"case": name, "ops": ops}));
+        }
+    }
+    // branch coverage of the model under the correspondence run: every outcome of every thread kind the model can produce
+    if model.is_some() && args.replay.is_none() {
+        let mut want: Vec<String> = vec![];
+        for k in ["mut-s", "mut-x", "mut-xp"] {
+            for o in ["ok", "err", "rej:ro", "rej:state:closed", "rej:state:closing", "rej:state:deleted", "rej:state:deleting", "rej:state:poisoned",
+                "pending:b", "pending:g", "dropped:lc-after=poisoned", "dropped:lc-after=active"] {
+                want.push(format!("model:{k}:{o}"));
+            }
+        }
+        for o in ["ok", "err", "rej:state:deleting", "rej:state:poisoned", "pending:b", "pending:g", "dropped:lc-after=poisoned", "dropped:lc-after=closing"] {
+            want.push(format!("model:close:{o}"));
+        }
+        for o in ["ok", "err", "pending:b", "pending:g", "pending:o", "dropped:lc-after=deleting"] {
+            want.push(format!("model:drop:{o}"));
+        }
+        for o in ["setro0:ok", "setro0:ignored", "setro1:ok", "dbro0:ok", "dbro0:ignored", "dbro1:ok"] {
+            want.push(format!("model:{o}"));
+        }
+        let missing: Vec<String> = want.iter().filter(|k| !rep.histogram.contains_key(*k)).cloned().collect();
+        rep.hit_n("model-branches:expected", want.len() as u64);
+        rep.hit_n("model-branches:visited", (want.len() - missing.len()) as u64);
+        for k in missing {
+            rep.hit_n(&format!("model-branches:UNVISITED {k}"), 1);
         }
     }
     rep.write(&args);
